@@ -494,29 +494,37 @@ def run_op(env, ctx, op, path=()):
         return {'path': list(path), 'out': {'postprocessed': n}, 'fired': [], 'steps': 0, 'nested': []}
     if kind == 'burst':
         # a long-lived module: many ordinary calls before the calls that are judged (state that only builds up
-        # over hundreds of calls: profiles, counters, caches that fill).  Not pre-empted, not recorded one by one.
+        # over hundreds of calls: profiles, counters, caches that fill).  Not pre-empted, not recorded one by one;
+        # every call has a step budget (a module may have texts on which it does not terminate).
         h = env.handles.get(op['mod'])
         n_done = 0
         if h is not None and h.ok:
             sim = env.sim
-            cur = None
+            saved_check = None
+            saved_deadline = task.deadline if task is not None else None
             if sim is not None:
-                cur, sim.cur = sim.cur, None          # mute the step clock for the burst
+                saved_check, sim.next_check = sim.next_check, mon.INF      # no pre-emption inside the burst
             try:
                 fn = entry_fn(h.module, 'parse')
                 texts = [fresh_text(t) for t in op['texts']]
                 with locks.sut():
                     for i in range(int(op['n'])):
+                        if task is not None:
+                            task.deadline = task.local + int(op.get('call_budget', 60_000))   # every call is bounded
                         try:
                             fn(texts[i % len(texts)])
+                        except mon.StepBudget:
+                            break
                         except Exception:
                             pass
                         n_done += 1
             except BaseException:
                 pass
             finally:
+                if task is not None:
+                    task.deadline = saved_deadline
                 if sim is not None:
-                    sim.cur = cur
+                    sim.next_check = saved_check
             env.count('burst')
             env.count('calls_in_bursts', n_done)
         return {'path': list(path), 'out': {'burst': n_done}, 'fired': [], 'steps': 0, 'nested': []}
